@@ -22,5 +22,6 @@ INVARIANT C18_DistZeroIffSamePoint
 INVARIANT C18_UnitsExact
 INVARIANT C18_DemandWithinStatement
 INVARIANT C18_ExpZero
+INVARIANT C18_IntForms
 INVARIANT C18_VecAnchorUnit
 INVARIANT C18_VecAnchorPole
